@@ -22,7 +22,7 @@ def _conv_harnesses(tier):
 def witnesses_c07(tier, seed):
     import ihex_sem
     rnd = random.Random(seed or 7)
-    lens = [0, 1, 15, 16, 17, 255, 256, 4097, 65535, 65536, 65537]
+    lens = [0, 1, 15, 16, 17, 255, 256, 4097, 65535, 65536, 65537, 1048576 + 17]
     if tier == 'thorough':
         lens += list(range(2, 15)) + list(range(18, 600)) + [131071, 131072, 131073, 1048575, 1048576, 1048577, 1048576 + 65536 + 1,
                                                               524288, 2 * 1048576 + 5]
@@ -670,7 +670,7 @@ def witnesses_c16(tier, seed):
     bad = 0
     for job, r in zip(jobs, res):
         ok = r.get('status') in ('ok', 'err')
-        if not ok or len(out) < 3:
+        if True:
             out.append(WitnessResult('hostile:' + job[6:60].replace('\n', ' ; '), job, ok, dict((k, r.get(k)) for k in ('status', 'err')), 'a result or an error value', 'hostile/'))
     # one summary witness so the count is visible
     out.append(WitnessResult('hostile:summary', '%d single-line and %d multi-line programs' % (len(jobs) - len(multi), len(multi)), True, 'all returned a value', 'no panic, crash or hang'))
